@@ -419,6 +419,7 @@ type vC19Writer struct {
 	remote net.IP
 	port   int
 	msg    *dns.Msg
+	bytes  bool // the reply arrived packed: the cache's byte ladder (or a direct pack) wrote it
 }
 
 func (w *vC19Writer) LocalAddr() net.Addr { return &net.UDPAddr{IP: net.IPv4(127, 0, 0, 1), Port: 53} }
@@ -434,7 +435,7 @@ func (w *vC19Writer) Write(b []byte) (int, error) {
 	if err := m.Unpack(b); err != nil {
 		return 0, err
 	}
-	w.msg = m
+	w.msg, w.bytes = m, true
 	return len(b), nil
 }
 func (w *vC19Writer) Close() error  { return nil }
@@ -883,6 +884,16 @@ func vC19GenCacheArgs(r *rand.Rand) vC19BuildArgs {
 		if b.m6 > 128 {
 			b.m6 = 56
 		}
+		// operators' configurations leave knobs unset: ceilings and / or floors at their defaults
+		// (floor = the RESOLVED ceiling), per family — `enabled = true` alone is the commonest shape
+		switch r.Intn(6) {
+		case 0:
+			b.f4, b.f6, b.m4, b.m6 = 0, 0, 0, 0
+		case 1:
+			b.m4, b.m6 = 0, 0
+		case 2:
+			b.f4, b.m4 = 0, 0
+		}
 		var good []string
 		for _, s := range b.nets {
 			if _, err := netip.ParsePrefix(s); err == nil {
@@ -905,6 +916,7 @@ func TestVerifC19Cache(t *testing.T) {
 	vC19LeakReplay(tr)
 	vC19OverlongReplay(tr)
 	vC19CorpusReplay(t, tr)
+	vC19DenialSweep(tr)
 	for c := 0; c < n; c++ {
 		if c%4 == 3 {
 			vC19DenialCase(tr, r)
@@ -1261,6 +1273,7 @@ func vC19ExecHistory(tr *vC19Trace, b vC19BuildArgs, ecsMax time.Duration, prefe
 		ch := middleware.NewChain([]middleware.Handler{e, c, middleware.HandlerFunc(up.serve)})
 		if wireReq != nil {
 			ch.ResetWire(w, wireReq)
+			ch.AllowDirectPack() // as every owned listener does: the cache's byte ladder may answer
 		} else {
 			ch.Reset(w, req)
 		}
@@ -1495,6 +1508,103 @@ type vC19Node struct {
 
 func vC19DenialCase(tr *vC19Trace, r *rand.Rand) {
 	b := vC19GenCacheArgs(r)
+	switch r.Intn(6) {
+	case 0: // no [ecs] policy: the default configuration
+		b.enabled = false
+	case 1: // an invalid one: fails closed to no policy
+		b.enabled, b.f4 = true, 33+uint8(r.Intn(200))
+	}
+	// the tree: root plus a chain of alias targets
+	depth := 1 + r.Intn(4)
+	var nodes []*vC19Node
+	for i := 0; i < depth; i++ {
+		nd := &vC19Node{kind: r.Intn(3)}
+		if i+1 < depth && r.Intn(3) == 0 {
+			nd.kind = 3 // a plain alias hop in an unrelated zone: lets an open tree go deeper
+		}
+		switch nd.kind {
+		case 0, 1:
+			nd.flipCD = r.Intn(4) == 0
+		case 3:
+			nd.flipCD = r.Intn(3) == 0
+		default:
+			nd.flipCD = r.Intn(6) == 0
+		}
+		nodes = append(nodes, nd)
+		if nd.kind == 2 {
+			break // a marked NXDOMAIN ends the chase
+		}
+	}
+	// the case only the context flag covers: a CD root whose alias answer comes back with CD
+	// cleared, so the follow-up sub-query carries neither CD nor a subnet option
+	cdFlipTemplate := len(nodes) >= 2 && nodes[0].kind != 2 && r.Intn(3) == 0
+	if cdFlipTemplate {
+		nodes[0].flipCD = true
+	}
+	// the root query
+	cd := r.Intn(3) == 0
+	clients := vC19GenClients(r, b)
+	cl := clients[r.Intn(len(clients))]
+	if r.Intn(2) == 0 { // an ordinary root: no subnet option, no CD
+		cl.opts, cl.hasOPT = nil, r.Intn(2) == 0
+		cd = false
+	}
+	if cdFlipTemplate {
+		cl.opts, cl.hasOPT = nil, true
+		cd = true
+	} else if r.Intn(5) == 0 {
+		// the option in its opt-out form (family 0, source 0, no address): still a client-sent subnet
+		// option, so the tree is audience-marked although nothing can be forwarded
+		cl.opts, cl.hasOPT = []dns.EDNS0{&dns.EDNS0_SUBNET{Code: dns.EDNS0SUBNET, Family: 0, SourceNetmask: 0}}, true
+		cd = false
+	}
+	vC19ExecTree(tr, b, nodes, cl, cd, r.Intn(2) == 0, "denial")
+}
+
+// the systematic part (every run, before the random trees): depth-1 trees over the full product
+// [ecs] policy {off, invalid, on for everyone, on but the client is not in client_networks}
+//
+//	x birth {message, wire (ParseWire + ResetWire + AllowDirectPack)}
+//	x what the client sent {no OPT, bare OPT, subnet v4, subnet v6, the opt-out form, CD, CD + subnet}
+//	x what covers the name {a shared RFC 8020 cut, a shared RFC 8198 proof, nothing yet (creation)}
+//
+// — in particular the wire-born subnet-bearing query on a resolver WITHOUT an [ecs] policy, the
+// default configuration, where the byte ladder of the cache runs before anything is decoded
+func vC19DenialSweep(tr *vC19Trace) {
+	remote := vC19V4(203, 0, 113, 77)
+	v4 := &dns.EDNS0_SUBNET{Code: dns.EDNS0SUBNET, Family: 1, SourceNetmask: 24, Address: vC19V4(203, 0, 113, 0)}
+	v6 := &dns.EDNS0_SUBNET{Code: dns.EDNS0SUBNET, Family: 2, SourceNetmask: 56, Address: net.ParseIP("2001:db8:1::")}
+	out := &dns.EDNS0_SUBNET{Code: dns.EDNS0SUBNET, Family: 0, SourceNetmask: 0}
+	policies := []vC19BuildArgs{
+		{enabled: false},
+		{enabled: true, f4: 77},
+		{enabled: true},
+		{enabled: true, nets: []string{"198.51.100.0/24"}},
+	}
+	type sent struct {
+		opts   []dns.EDNS0
+		hasOPT bool
+		cd     bool
+	}
+	sents := []sent{
+		{nil, false, false}, {nil, true, false},
+		{[]dns.EDNS0{v4}, true, false}, {[]dns.EDNS0{v6}, true, false}, {[]dns.EDNS0{out}, true, false},
+		{nil, true, true}, {[]dns.EDNS0{v4}, true, true},
+	}
+	for _, b := range policies {
+		for _, wire := range []bool{false, true} {
+			for _, sn := range sents {
+				for kind := 0; kind < 3; kind++ {
+					cl := vC19Client{remote: remote, opts: sn.opts, hasOPT: sn.hasOPT}
+					vC19ExecTree(tr, b, []*vC19Node{{kind: kind}}, cl, sn.cd, wire, "denial-sweep")
+				}
+			}
+		}
+	}
+}
+
+// runs one request tree: nodes[0] is the root's question, nodes[i+1] the alias target of nodes[i]
+func vC19ExecTree(tr *vC19Trace, b vC19BuildArgs, nodes []*vC19Node, cl vC19Client, cd bool, wantWire bool, label string) {
 	c, e, _ := vC19NewCache(b, 0, false)
 	defer c.Stop()
 	pol := c.ecsPolicy
@@ -1512,14 +1622,7 @@ func vC19DenialCase(tr *vC19Trace, r *rand.Rand) {
 	pReq.SetEdns0(1232, true)
 	proofSeeded := c.store.RecordDenialProof(vC19NXDomain(pReq, vC19ProofZone), vC19ProofZone, middleware.ValidatedNegativeProofNSEC, time.Time{})
 
-	// the tree: root plus a chain of alias targets
-	depth := 1 + r.Intn(4)
-	var nodes []*vC19Node
-	for i := 0; i < depth; i++ {
-		nd := &vC19Node{kind: r.Intn(3)}
-		if i+1 < depth && r.Intn(3) == 0 {
-			nd.kind = 3 // a plain alias hop in an unrelated zone: lets an open tree go deeper
-		}
+	for i, nd := range nodes {
 		if nd.kind == 1 && !proofSeeded {
 			nd.kind = 0
 		}
@@ -1527,30 +1630,16 @@ func vC19DenialCase(tr *vC19Trace, r *rand.Rand) {
 		case 0:
 			nd.name = fmt.Sprintf("n%d.%s", i, vC19CutDenied)
 			nd.zone = vC19CutZone
-			nd.flipCD = r.Intn(4) == 0
 		case 1:
 			nd.name = fmt.Sprintf("n%d.%s", i, vC19ProofZone)
 			nd.zone = vC19ProofZone
-			nd.flipCD = r.Intn(4) == 0
 		case 3:
 			nd.zone = "plain.example."
 			nd.name = fmt.Sprintf("alias%d.plain.example.", i)
-			nd.flipCD = r.Intn(3) == 0
 		default:
 			nd.zone = fmt.Sprintf("fresh%d.example.", i)
 			nd.name = "gone." + nd.zone
-			nd.flipCD = r.Intn(6) == 0
 		}
-		nodes = append(nodes, nd)
-		if nd.kind == 2 {
-			break // a marked NXDOMAIN ends the chase
-		}
-	}
-	// the case only the context flag covers: a CD root whose alias answer comes back with CD
-	// cleared, so the follow-up sub-query carries neither CD nor a subnet option
-	cdFlipTemplate := len(nodes) >= 2 && nodes[0].kind != 2 && r.Intn(3) == 0
-	if cdFlipTemplate {
-		nodes[0].flipCD = true
 	}
 	byName := map[string]*vC19Node{}
 	for _, nd := range nodes {
@@ -1611,23 +1700,6 @@ func vC19DenialCase(tr *vC19Trace, r *rand.Rand) {
 	handlers := func() []middleware.Handler { return []middleware.Handler{e, probe, c, upstream} }
 	c.SetQueryer(&vC19Queryer{handlers: handlers})
 
-	// the root query
-	cd := r.Intn(3) == 0
-	clients := vC19GenClients(r, b)
-	cl := clients[r.Intn(len(clients))]
-	if r.Intn(2) == 0 { // an ordinary root: no subnet option, no CD
-		cl.opts, cl.hasOPT = nil, r.Intn(2) == 0
-		cd = false
-	}
-	if cdFlipTemplate {
-		cl.opts, cl.hasOPT = nil, true
-		cd = true
-	} else if r.Intn(5) == 0 {
-		// the option in its opt-out form (family 0, source 0, no address): still a client-sent subnet
-		// option, so the tree is audience-marked although nothing can be forwarded
-		cl.opts, cl.hasOPT = []dns.EDNS0{&dns.EDNS0_SUBNET{Code: dns.EDNS0SUBNET, Family: 0, SourceNetmask: 0}}, true
-		cd = false
-	}
 	req := new(dns.Msg)
 	req.SetQuestion(nodes[0].name, dns.TypeA)
 	req.RecursionDesired = true
@@ -1646,7 +1718,7 @@ func vC19DenialCase(tr *vC19Trace, r *rand.Rand) {
 		}
 	}
 	var wireReq *middleware.Request
-	if r.Intn(2) == 0 {
+	if wantWire {
 		if wr, o, h, ok := vC19Wire(req); ok {
 			wireReq, cl.opts, cl.hasOPT = wr, o, h
 		}
@@ -1656,6 +1728,7 @@ func vC19DenialCase(tr *vC19Trace, r *rand.Rand) {
 	ch := middleware.NewChain(handlers())
 	if wireReq != nil {
 		ch.ResetWire(w, wireReq)
+		ch.AllowDirectPack() // as every owned listener does: the cache's byte ladder may answer
 	} else {
 		ch.Reset(w, req)
 	}
@@ -1705,13 +1778,21 @@ func vC19DenialCase(tr *vC19Trace, r *rand.Rand) {
 		tr.emit(map[string]any{"k": "denial-inconclusive", "inconclusive": true, "desc": "cache not reached"})
 		return
 	}
-	k := "denial-open"
+	k := label + "-open"
 	if isolated {
-		k = "denial-isolated"
+		k = label + "-isolated"
 	}
 	k += fmt.Sprintf("-depth%d", len(order))
-	tr.emit(map[string]any{"k": k, "coq": fmt.Sprintf("CaseDenial %s (%s) [%s]", b.coq(), tree, strings.Join(seen, "; ")),
+	ctor := "CaseDenial"
+	if wireReq != nil {
+		ctor = "CaseDenialWire"
+		k += "-wire"
+	}
+	if pol == nil {
+		k += "-nopolicy"
+	}
+	tr.emit(map[string]any{"k": k, "coq": fmt.Sprintf("%s %s (%s) [%s]", ctor, b.coq(), tree, strings.Join(seen, "; ")),
 		"go_fail": goFail, "nontrivial": true,
-		"desc": map[string]any{"ecs_cfg": fmt.Sprintf("%+v", b), "client": cl.remote.String(), "wire_born": wireReq != nil, "cd": cd, "subnet_option": rawECS, "proof_seeded": proofSeeded, "nodes": ndesc}})
+		"desc": map[string]any{"ecs_cfg": fmt.Sprintf("%+v", b), "client": cl.remote.String(), "wire_born": wireReq != nil, "reply_packed": w.bytes, "never_decoded": wireReq != nil && wireReq.Undecoded(), "cd": cd, "subnet_option": rawECS, "proof_seeded": proofSeeded, "nodes": ndesc}})
 	_ = pol
 }
